@@ -48,3 +48,6 @@ func VerifC08_Script_IAI()  { verifC08Quiesce(verifFwScript("C08", false, []stri
 func VerifC08_Script_IDI()  { verifC08Quiesce(verifFwScript("C08", false, []string{"IDI"})) }
 func VerifC08_Script_IIAI() { verifC08Quiesce(verifFwScript("C08", false, []string{"IIAI"})) }
 func VerifC08_Script_IDAI() { verifC08Quiesce(verifFwScript("C08", false, []string{"IDAI"})) }
+
+// one Data satisfying two PIT entries (or one), the satisfied entries are gone at the reaper's next run
+func VerifC08_Script_IID() { verifC08Quiesce(verifFwScript("C08", false, []string{"IID"})) }
